@@ -1,13 +1,1726 @@
-//! C19 (part 1) — web IDE path confinement. Not implemented yet.
+//! C19 (part 1) — web IDE file API: confinement to the project directory, hidden entries, and
+//! role / write-mode gating (core X1: bounded-exhaustive enumeration of path strings x operations
+//! x session kinds x write_enabled, every case executed on the real `WebIdeState`).
+//!
+//! Covered sentence of the statement: "For every path string and every session, the browser IDE's
+//! file operations (list, open, create, write, rename, delete, search) never read, create, modify
+//! or remove anything outside the active project directory, and never touch hidden entries;
+//! viewer sessions, expired sessions and write-disabled mode cannot mutate anything."
+//!
+//! Set-up: every worker owns a sentinel tree (in `/dev/shm` when that is usable — rebuilding the tree
+//! is 20x faster on tmpfs than on the ext4 work directory — otherwise under `ctx.work_dir()`)
+//!
+//! ```text
+//! <top>/g5/g4/g3/g2/outer/                 (g5..g2: watched empty levels so that `../../../..` stays inside)
+//!     secret.txt  secret.st                 sentinel files next to the project
+//!     project2/{other.st, main.st}          sentinel sibling (name has the project dir name as prefix)
+//!     project/                              <- the active project root
+//!         main.st  "a b.st"  "ü.st"  sub/a.st
+//!         .hidden/h.st  .env                hidden entries
+//!         link -> ../project2               symlinked DIRECTORY pointing outside (layout "full" only)
+//! ```
+//!
+//! Oracle (nothing beyond the statement):
+//!  * escape-write / hidden-write: names, types, contents and link targets of everything outside the
+//!    project directory / of the hidden entries are the same after every operation;
+//!  * escape-read / hidden-read: nothing an operation returns contains sentinel data of those entries
+//!    (unique marker words in their contents, their symbol names, listing paths that resolve outside
+//!    the root or have a dot component); if the file system maintains access times (self-tested per
+//!    tree), no sentinel entry outside / hidden has been read either;
+//!  * <who>-mutation: an operation issued with a viewer token, with a token that is not a live
+//!    session, or with `write_enabled = false` leaves the project tree unchanged as well.
+//! An *editor* with write access may change anything inside the non-hidden part of the project; the
+//! tree is rebuilt after every such change, so every case starts from the same pristine tree and
+//! from a fresh `WebIdeState` (cases are self-contained).
+//!
+//! Change detection: all sentinel entries get atime = mtime = 2001-01-01 when the tree is built, so
+//! one `lstat` per entry (type, mode, nlink, size, inode, mtime; atime for the read clause) detects
+//! every create/remove/rename/write/read independent of timestamp granularity. A full snapshot
+//! (contents) is taken whenever the detector fires, on every replay, and at the end of every chunk
+//! (a difference the detector missed is a machinery error).
+//!
+//! Not covered (said in the report): *expired* sessions — `WebIdeState::with_clock` is
+//! `#[cfg(test)]` and private, the TTL (15 min) and the clock are not configurable through the
+//! public API, so a session cannot be expired without waiting; an unknown token stands in for it
+//! (after `prune_expired` an expired token *is* an unknown token). Reads that leave no trace in the
+//! result are only seen through access times. `stat`-like probes of outside entries are invisible.
+//! `browse_directory` / `set_active_project` are the documented project picker (they work outside
+//! any project by design): only "writes nothing" is demanded of them. Pre-planted symlinked *files*
+//! are outside the statement's list and are not tested. Hidden entries exist only at the project
+//! root: deleting/renaming a visible directory necessarily takes its hidden children along, which
+//! a reasonable reading of the statement allows.
 
 use crate::fw::*;
-use serde_json::Value;
+use crate::par::par_map;
+use serde_json::{json, Value};
+use std::collections::{BTreeMap, HashSet};
+use std::os::unix::fs::MetadataExt;
+use std::path::{Component, Path, PathBuf};
+use std::sync::atomic::{AtomicUsize, Ordering};
+use std::sync::Mutex;
+use std::time::{Duration, Instant};
+use trust_runtime::web::ide::{IdeError, IdeRole, WebIdeState};
 
-/// Adds the confinement family's coverage counters and violations to `rep`.
-pub fn run_part(_ctx: &Ctx, _rep: &mut Report) -> Result<(), Machinery> {
+// -------------------------------------------------------------------------------------------------
+// sentinel tree
+// -------------------------------------------------------------------------------------------------
+
+/// 2001-01-01T00:00:00Z — every sentinel entry gets this atime/mtime.
+const OLD_SECS: i64 = 978_307_200;
+
+const OUTER_REL: &str = "g5/g4/g3/g2/outer";
+const PROJECT_REL: &str = "g5/g4/g3/g2/outer/project";
+const P2_REL: &str = "g5/g4/g3/g2/outer/project2";
+
+const EDITOR_PAYLOAD: &str = "(* ZQEDITORPAYLOAD *)\nPROGRAM ZqInEdited\nEND_PROGRAM\n";
+const UNKNOWN_TOKEN: &str = "c19-confine-token-that-was-never-issued";
+
+#[derive(Clone, Copy, PartialEq, Eq, Debug)]
+enum Layout {
+    /// with `project/link -> ../project2`
+    Full,
+    /// without the symlink (the analysis operations refuse to work at all when it is present)
+    NoLink,
+}
+
+impl Layout {
+    fn as_str(self) -> &'static str {
+        match self {
+            Layout::Full => "full",
+            Layout::NoLink => "nolink",
+        }
+    }
+    fn parse(s: &str) -> Layout {
+        if s == "nolink" {
+            Layout::NoLink
+        } else {
+            Layout::Full
+        }
+    }
+}
+
+#[derive(Clone, Copy, PartialEq, Eq, Debug)]
+enum Zone {
+    Outside,
+    Hidden,
+    Project,
+}
+
+enum Kind {
+    Dir,
+    File(&'static str),
+    Link(&'static str),
+}
+
+/// (path relative to `outer`, kind). Order: parents before children.
+fn outer_spec(layout: Layout) -> Vec<(&'static str, Kind)> {
+    let mut v = vec![
+        ("secret.txt", Kind::File("ZQOUTUPTXT top secret\n")),
+        (
+            "secret.st",
+            Kind::File("(* ZQOUTUPST *)\nPROGRAM ZqOutUpSt\nVAR\n    zqoutupvar : INT;\nEND_VAR\nEND_PROGRAM\n"),
+        ),
+        ("project2", Kind::Dir),
+        (
+            "project2/other.st",
+            Kind::File("(* ZQOUTP2OTHER *)\nFUNCTION ZqOutP2Other : INT\nVAR_INPUT\n    x : INT;\nEND_VAR\nZqOutP2Other := x;\nEND_FUNCTION\n"),
+        ),
+        (
+            "project2/main.st",
+            Kind::File("(* ZQOUTP2MAIN *)\nPROGRAM ZqOutP2Main\nEND_PROGRAM\n"),
+        ),
+        ("project", Kind::Dir),
+        (
+            "project/main.st",
+            // line 4, character 12 is on `ZqInHelper`
+            Kind::File("PROGRAM Main\nVAR\n    counter : INT;\nEND_VAR\ncounter := ZqInHelper(counter);\nEND_PROGRAM\n"),
+        ),
+        ("project/a b.st", Kind::File("(* ZQINSPACE *)\nPROGRAM ZqInSpace\nEND_PROGRAM\n")),
+        ("project/ü.st", Kind::File("(* ZQINUML *)\nPROGRAM ZqInUml\nEND_PROGRAM\n")),
+        ("project/sub", Kind::Dir),
+        (
+            "project/sub/a.st",
+            Kind::File("FUNCTION ZqInHelper : INT\nVAR_INPUT\n    x : INT;\nEND_VAR\nZqInHelper := x + 1;\nEND_FUNCTION\n"),
+        ),
+        ("project/.hidden", Kind::Dir),
+        (
+            "project/.hidden/h.st",
+            Kind::File("(* ZQHIDDENH *)\nPROGRAM ZqHiddenH\nVAR\n    v : INT;\nEND_VAR\nv := ZqInHelper(v);\nEND_PROGRAM\n"),
+        ),
+        ("project/.env", Kind::File("ZQHIDDENENV=1\n")),
+    ];
+    if layout == Layout::Full {
+        v.push(("project/link", Kind::Link("../project2")));
+    }
+    v
+}
+
+fn zone_of(rel_top: &str) -> Zone {
+    if rel_top == PROJECT_REL {
+        return Zone::Project;
+    }
+    match rel_top.strip_prefix(PROJECT_REL).and_then(|r| r.strip_prefix('/')) {
+        Some(rest) => {
+            if rest.starts_with('.') {
+                Zone::Hidden
+            } else {
+                Zone::Project
+            }
+        }
+        None => Zone::Outside,
+    }
+}
+
+#[derive(Clone, PartialEq, Eq, Debug)]
+struct StatKey {
+    kind: u8,
+    mode: u32,
+    nlink: u64,
+    size: u64,
+    ino: u64,
+    mtime: (i64, i64),
+}
+
+struct Watched {
+    abs: PathBuf,
+    rel: String,
+    zone: Zone,
+    key: StatKey,
+    atime: (i64, i64),
+}
+
+#[derive(Clone, PartialEq, Eq, Debug)]
+enum Node {
+    Dir,
+    File(Vec<u8>),
+    Link(String),
+    Other,
+}
+
+type Snapshot = BTreeMap<String, Node>;
+
+#[derive(Default, Clone, Copy)]
+struct FastDiff {
+    out_w: u32,
+    hid_w: u32,
+    proj_w: u32,
+    out_r: u32,
+    hid_r: u32,
+}
+
+impl FastDiff {
+    fn clean(&self) -> bool {
+        self.out_w | self.hid_w | self.proj_w | self.out_r | self.hid_r == 0
+    }
+}
+
+struct Tree {
+    top: PathBuf,
+    layout: Layout,
+    outer: PathBuf,
+    project: PathBuf,
+    canon_project: PathBuf,
+    watched: Vec<Watched>,
+    pristine: Snapshot,
+    dirty: bool,
+    atime_ok: bool,
+    /// listing a directory moves the directory's access time as well
+    atime_dir_ok: bool,
+    rebuilds: u64,
+}
+
+fn io_err(what: &str, p: &Path, e: std::io::Error) -> String {
+    format!("sentinel tree: {what} {}: {e}", p.display())
+}
+
+fn stamp_old(path: &Path) -> Result<(), String> {
+    use std::os::unix::ffi::OsStrExt;
+    let c = std::ffi::CString::new(path.as_os_str().as_bytes()).map_err(|e| format!("cstring: {e}"))?;
+    // SAFETY: zero is a valid bit pattern for timespec; the pointers are valid for the call.
+    let mut ts: [libc::timespec; 2] = unsafe { std::mem::zeroed() };
+    ts[0].tv_sec = OLD_SECS as libc::time_t;
+    ts[1].tv_sec = OLD_SECS as libc::time_t;
+    let r = unsafe { libc::utimensat(libc::AT_FDCWD, c.as_ptr(), ts.as_ptr(), libc::AT_SYMLINK_NOFOLLOW) };
+    if r != 0 {
+        return Err(io_err("utimensat", path, std::io::Error::last_os_error()));
+    }
     Ok(())
 }
 
-pub fn check_case(_case: &Value) -> Vec<Violation> {
-    Vec::new()
+fn stat_key(p: &Path) -> Option<(StatKey, (i64, i64))> {
+    let md = std::fs::symlink_metadata(p).ok()?;
+    let ft = md.file_type();
+    let kind = if ft.is_symlink() {
+        b'l'
+    } else if ft.is_dir() {
+        b'd'
+    } else if ft.is_file() {
+        b'f'
+    } else {
+        b'?'
+    };
+    Some((
+        StatKey {
+            kind,
+            mode: md.mode(),
+            nlink: md.nlink(),
+            size: md.size(),
+            ino: md.ino(),
+            mtime: (md.mtime(), md.mtime_nsec()),
+        },
+        (md.atime(), md.atime_nsec()),
+    ))
+}
+
+fn snapshot_into(dir: &Path, rel: &str, out: &mut Snapshot) {
+    let Ok(rd) = std::fs::read_dir(dir) else { return };
+    for e in rd.flatten() {
+        let name = e.file_name().to_string_lossy().to_string();
+        let r = if rel.is_empty() { name.clone() } else { format!("{rel}/{name}") };
+        let p = e.path();
+        let Ok(md) = std::fs::symlink_metadata(&p) else { continue };
+        let ft = md.file_type();
+        if ft.is_symlink() {
+            let t = std::fs::read_link(&p).map(|t| t.to_string_lossy().to_string()).unwrap_or_default();
+            out.insert(r, Node::Link(t));
+        } else if ft.is_dir() {
+            out.insert(r.clone(), Node::Dir);
+            snapshot_into(&p, &r, out);
+        } else if ft.is_file() {
+            out.insert(r, Node::File(std::fs::read(&p).unwrap_or_default()));
+        } else {
+            out.insert(r, Node::Other);
+        }
+    }
+}
+
+/// (sign, path relative to top, zone); sign '+' new, '-' gone, '~' changed
+fn diff_snap(a: &Snapshot, b: &Snapshot) -> Vec<(char, String, Zone)> {
+    let mut d = Vec::new();
+    for (k, v) in a {
+        match b.get(k) {
+            None => d.push(('-', k.clone(), zone_of(k))),
+            Some(w) if w != v => d.push(('~', k.clone(), zone_of(k))),
+            _ => {}
+        }
+    }
+    for k in b.keys() {
+        if !a.contains_key(k) {
+            d.push(('+', k.clone(), zone_of(k)));
+        }
+    }
+    d
+}
+
+static TREE_SEQ: AtomicUsize = AtomicUsize::new(0);
+
+impl Tree {
+    fn new(base: &Path, layout: Layout) -> Result<Tree, String> {
+        let id = TREE_SEQ.fetch_add(1, Ordering::Relaxed);
+        let top = base.join(format!("t{id}-{}", layout.as_str()));
+        let _ = std::fs::remove_dir_all(&top);
+        std::fs::create_dir_all(&top).map_err(|e| io_err("mkdir", &top, e))?;
+        let top = top.canonicalize().map_err(|e| io_err("canonicalize", &top, e))?;
+        let mut t = Tree {
+            outer: top.join(OUTER_REL),
+            project: top.join(PROJECT_REL),
+            canon_project: top.join(PROJECT_REL),
+            top,
+            layout,
+            watched: Vec::new(),
+            pristine: Snapshot::new(),
+            dirty: false,
+            atime_ok: false,
+            atime_dir_ok: false,
+            rebuilds: 0,
+        };
+        t.build()?;
+        t.pristine = t.snapshot();
+        // the snapshot read the files: start again from fresh stamps
+        t.build()?;
+        t.self_test()?;
+        Ok(t)
+    }
+
+    fn build(&mut self) -> Result<(), String> {
+        let g5 = self.top.join("g5");
+        if g5.symlink_metadata().is_ok() {
+            // a subject may have removed permissions; best effort
+            std::fs::remove_dir_all(&g5).map_err(|e| io_err("remove_dir_all", &g5, e))?;
+        }
+        std::fs::create_dir_all(&self.outer).map_err(|e| io_err("mkdir", &self.outer, e))?;
+        let mut all: Vec<String> = vec!["g5".into(), "g5/g4".into(), "g5/g4/g3".into(), "g5/g4/g3/g2".into(), OUTER_REL.into()];
+        for (rel, kind) in outer_spec(self.layout) {
+            let p = self.outer.join(rel);
+            match kind {
+                Kind::Dir => std::fs::create_dir(&p).map_err(|e| io_err("mkdir", &p, e))?,
+                Kind::File(c) => std::fs::write(&p, c).map_err(|e| io_err("write", &p, e))?,
+                Kind::Link(t) => std::os::unix::fs::symlink(t, &p).map_err(|e| io_err("symlink", &p, e))?,
+            }
+            all.push(format!("{OUTER_REL}/{rel}"));
+        }
+        for rel in &all {
+            stamp_old(&self.top.join(rel))?;
+        }
+        self.watched.clear();
+        for rel in all {
+            let abs = self.top.join(&rel);
+            let (key, atime) = stat_key(&abs).ok_or_else(|| format!("sentinel tree: cannot stat {}", abs.display()))?;
+            if key.mtime != (OLD_SECS, 0) || atime != (OLD_SECS, 0) {
+                return Err(format!("sentinel tree: time stamps of {} did not stick", abs.display()));
+            }
+            self.watched.push(Watched { zone: zone_of(&rel), abs, rel, key, atime });
+        }
+        if self.watched.len() > 32 {
+            return Err("sentinel tree: more than 32 watched entries".into());
+        }
+        self.dirty = false;
+        self.rebuilds += 1;
+        Ok(())
+    }
+
+    fn ensure_pristine(&mut self) -> Result<(), String> {
+        if self.dirty {
+            self.build()?;
+        }
+        Ok(())
+    }
+
+    fn snapshot(&self) -> Snapshot {
+        let mut s = Snapshot::new();
+        snapshot_into(&self.top, "", &mut s);
+        s
+    }
+
+    /// One lstat per sentinel entry.
+    fn fast_check(&self) -> FastDiff {
+        let mut d = FastDiff::default();
+        for (i, w) in self.watched.iter().enumerate() {
+            let bit = 1u32 << i;
+            match stat_key(&w.abs) {
+                Some((key, atime)) => {
+                    if key != w.key {
+                        match w.zone {
+                            Zone::Outside => d.out_w |= bit,
+                            Zone::Hidden => d.hid_w |= bit,
+                            Zone::Project => d.proj_w |= bit,
+                        }
+                    } else if atime != w.atime {
+                        match w.zone {
+                            Zone::Outside => d.out_r |= bit,
+                            Zone::Hidden => d.hid_r |= bit,
+                            Zone::Project => {}
+                        }
+                    }
+                }
+                None => match w.zone {
+                    Zone::Outside => d.out_w |= bit,
+                    Zone::Hidden => d.hid_w |= bit,
+                    Zone::Project => d.proj_w |= bit,
+                },
+            }
+        }
+        d
+    }
+
+    fn names(&self, mask: u32) -> String {
+        let v: Vec<&str> = self
+            .watched
+            .iter()
+            .enumerate()
+            .filter(|(i, _)| mask & (1 << i) != 0)
+            .map(|(_, w)| w.rel.strip_prefix("g5/g4/g3/g2/").unwrap_or(&w.rel))
+            .collect();
+        v.join(", ")
+    }
+
+    /// Is one of the entries in `mask` inside the symlink target `project2`?
+    fn mask_in_p2(&self, mask: u32) -> bool {
+        self.watched
+            .iter()
+            .enumerate()
+            .any(|(i, w)| mask & (1 << i) != 0 && w.rel.starts_with(P2_REL))
+    }
+
+    /// The detector must see a content change of equal size, a create+remove in a directory and
+    /// (if the file system maintains access times) a read.
+    fn self_test(&mut self) -> Result<(), String> {
+        if !self.fast_check().clean() {
+            return Err("sentinel tree: change detector fires on an untouched tree".into());
+        }
+        let secret = self.outer.join("secret.txt");
+        let _ = std::fs::read(&secret);
+        let d = self.fast_check();
+        self.atime_ok = d.out_r != 0;
+        if d.out_w != 0 {
+            return Err("sentinel tree: a read looks like a write".into());
+        }
+        let _ = std::fs::read_dir(self.outer.join("project2")).map(|rd| rd.count());
+        let d = self.fast_check();
+        self.atime_dir_ok = self.atime_ok
+            && self.watched.iter().enumerate().any(|(i, w)| w.rel == P2_REL && d.out_r & (1 << i) != 0);
+        std::fs::write(&secret, "zqoutuptxt TOP SECRET\n").map_err(|e| io_err("write", &secret, e))?;
+        if self.fast_check().out_w == 0 {
+            return Err("sentinel tree: change detector missed an equal-size overwrite".into());
+        }
+        self.build()?;
+        let probe = self.top.join("g5/g4/g3/zz");
+        std::fs::write(&probe, "x").map_err(|e| io_err("write", &probe, e))?;
+        std::fs::remove_file(&probe).map_err(|e| io_err("rm", &probe, e))?;
+        if self.fast_check().out_w == 0 {
+            return Err("sentinel tree: change detector missed create+remove in a directory".into());
+        }
+        self.build()?;
+        let h = self.project.join(".hidden/h.st");
+        std::fs::remove_file(&h).map_err(|e| io_err("rm", &h, e))?;
+        if self.fast_check().hid_w == 0 {
+            return Err("sentinel tree: change detector missed the removal of a hidden file".into());
+        }
+        self.build()?;
+        if self.snapshot() != self.pristine {
+            return Err("sentinel tree: rebuild is not identical to the first build".into());
+        }
+        self.build()?;
+        Ok(())
+    }
+}
+
+impl Drop for Tree {
+    fn drop(&mut self) {
+        let _ = std::fs::remove_dir_all(&self.top);
+    }
+}
+
+// -------------------------------------------------------------------------------------------------
+// cases
+// -------------------------------------------------------------------------------------------------
+
+#[derive(Clone, Copy, PartialEq, Eq, Debug, PartialOrd, Ord)]
+enum Op {
+    ListSources,
+    ListTree,
+    Search,
+    WorkspaceSymbols,
+    Browse,
+    SetActiveProject,
+    Open,
+    CreateFile,
+    CreateDir,
+    Apply,
+    Delete,
+    Format,
+    Rename,
+    FileSymbols,
+    Diagnostics,
+    Hover,
+    Completion,
+    Definition,
+    References,
+    RenameSymbol,
+}
+
+const ALL_OPS: &[Op] = &[
+    Op::ListSources,
+    Op::ListTree,
+    Op::Search,
+    Op::WorkspaceSymbols,
+    Op::Browse,
+    Op::SetActiveProject,
+    Op::Open,
+    Op::CreateFile,
+    Op::CreateDir,
+    Op::Apply,
+    Op::Delete,
+    Op::Format,
+    Op::Rename,
+    Op::FileSymbols,
+    Op::Diagnostics,
+    Op::Hover,
+    Op::Completion,
+    Op::Definition,
+    Op::References,
+    Op::RenameSymbol,
+];
+
+impl Op {
+    fn as_str(self) -> &'static str {
+        match self {
+            Op::ListSources => "list_sources",
+            Op::ListTree => "list_tree",
+            Op::Search => "workspace_search",
+            Op::WorkspaceSymbols => "workspace_symbols",
+            Op::Browse => "browse_directory",
+            Op::SetActiveProject => "set_active_project",
+            Op::Open => "open_source",
+            Op::CreateFile => "create_entry_file",
+            Op::CreateDir => "create_entry_dir",
+            Op::Apply => "apply_source",
+            Op::Delete => "delete_entry",
+            Op::Format => "format_source",
+            Op::Rename => "rename_entry",
+            Op::FileSymbols => "file_symbols",
+            Op::Diagnostics => "diagnostics",
+            Op::Hover => "hover",
+            Op::Completion => "completion",
+            Op::Definition => "definition",
+            Op::References => "references",
+            Op::RenameSymbol => "rename_symbol",
+        }
+    }
+    fn parse(s: &str) -> Option<Op> {
+        ALL_OPS.iter().copied().find(|o| o.as_str() == s)
+    }
+    /// takes the `write_enabled` flag
+    fn has_we(self) -> bool {
+        matches!(self, Op::CreateFile | Op::CreateDir | Op::Apply | Op::Delete | Op::Rename | Op::RenameSymbol)
+    }
+    /// `p1` is a workspace path
+    fn p1_is_path(self) -> bool {
+        !matches!(self, Op::ListSources | Op::ListTree | Op::Search | Op::WorkspaceSymbols)
+    }
+    /// documented project picker: reads outside any project by design
+    fn is_picker(self) -> bool {
+        matches!(self, Op::Browse | Op::SetActiveProject)
+    }
+}
+
+#[derive(Clone, Copy, PartialEq, Eq, Debug)]
+enum Sess {
+    Editor,
+    Viewer,
+    Unknown,
+}
+
+const SESSIONS: &[Sess] = &[Sess::Editor, Sess::Viewer, Sess::Unknown];
+
+impl Sess {
+    fn as_str(self) -> &'static str {
+        match self {
+            Sess::Editor => "editor",
+            Sess::Viewer => "viewer",
+            Sess::Unknown => "unknown",
+        }
+    }
+    fn parse(s: &str) -> Sess {
+        match s {
+            "editor" => Sess::Editor,
+            "viewer" => Sess::Viewer,
+            _ => Sess::Unknown,
+        }
+    }
+}
+
+#[derive(Clone, Debug)]
+struct Case {
+    op: Op,
+    /// path (or query for search / symbols); may contain the placeholders `{OUTER}`, `{PROJECT}`
+    p1: String,
+    /// rename_entry: new path; workspace_search: include glob ("" = none)
+    p2: String,
+    sess: Sess,
+    we: bool,
+    layout: Layout,
+}
+
+impl Case {
+    fn to_json(&self) -> Value {
+        json!({
+            "part": "confine",
+            "op": self.op.as_str(),
+            "path": self.p1,
+            "path2": self.p2,
+            "session": self.sess.as_str(),
+            "write_enabled": self.we,
+            "layout": self.layout.as_str(),
+        })
+    }
+    fn from_json(v: &Value) -> Option<Case> {
+        Some(Case {
+            op: Op::parse(v["op"].as_str()?)?,
+            p1: v["path"].as_str()?.to_string(),
+            p2: v["path2"].as_str().unwrap_or("").to_string(),
+            sess: Sess::parse(v["session"].as_str()?),
+            we: v["write_enabled"].as_bool().unwrap_or(true),
+            layout: Layout::parse(v["layout"].as_str().unwrap_or("full")),
+        })
+    }
+}
+
+fn subst(p: &str, tree: &Tree) -> String {
+    if !p.contains('{') {
+        return p.to_string();
+    }
+    p.replace("{OUTER}", &tree.outer.to_string_lossy())
+        .replace("{PROJECT}", &tree.project.to_string_lossy())
+}
+
+fn show(p: &str) -> String {
+    let e: String = p.escape_debug().collect();
+    if e.chars().count() > 70 {
+        let head: String = e.chars().take(30).collect();
+        let tail: String = e.chars().rev().take(25).collect::<Vec<_>>().into_iter().rev().collect();
+        format!("\"{head}…({} chars)…{tail}\"", e.chars().count())
+    } else {
+        format!("\"{e}\"")
+    }
+}
+
+// -------------------------------------------------------------------------------------------------
+// path strings
+// -------------------------------------------------------------------------------------------------
+
+/// Component menu (17 entries). Deeper levels use a prefix of it: the first `CORE` entries (quick,
+/// length 3) or the first `GIVEN` entries (thorough, length 4). The last three entries are file
+/// names that exist below `sub/`, `link/` and `.hidden/`, so that `sub/a.st`, `link/other.st` and
+/// `.hidden/h.st` are addressable.
+fn menu() -> Vec<String> {
+    vec![
+        "main.st".into(),
+        "a".into(),
+        "sub".into(),
+        "..".into(),
+        ".".into(),
+        "".into(),
+        ".hidden".into(),
+        "link".into(),
+        "project2".into(),
+        "secret.st".into(),
+        // --- end of the core menu
+        ".env".into(),
+        "a b.st".into(),
+        "ü.st".into(),
+        "x".repeat(300),
+        // --- end of the given menu
+        "a.st".into(),
+        "other.st".into(),
+        "h.st".into(),
+    ]
+}
+const CORE: usize = 10;
+const GIVEN: usize = 14;
+const FULL: usize = 17;
+
+const JOINERS: &[&str] = &["/", "//", "\\"];
+
+#[derive(Clone, Copy, PartialEq, Eq, Debug)]
+enum Deco {
+    None,
+    Trailing,
+    DotSlash,
+    Spaces,
+    LeadSlash,
+    AbsOuter,
+    Drive,
+    UrlEnc,
+    Nul,
+}
+const DECOS: &[Deco] = &[
+    Deco::None,
+    Deco::Trailing,
+    Deco::DotSlash,
+    Deco::Spaces,
+    Deco::LeadSlash,
+    Deco::AbsOuter,
+    Deco::Drive,
+    Deco::UrlEnc,
+    Deco::Nul,
+];
+
+fn decorate(comps: &[&str], joiner: &str, deco: Deco) -> Option<String> {
+    let base = comps.join(joiner);
+    Some(match deco {
+        Deco::None => base,
+        Deco::Trailing => format!("{base}/"),
+        Deco::DotSlash => format!("./{base}"),
+        Deco::Spaces => format!(" {base} "),
+        Deco::LeadSlash => format!("/{base}"),
+        Deco::AbsOuter => format!("{{OUTER}}/{base}"),
+        Deco::Drive => format!("C:\\{base}"),
+        Deco::UrlEnc => {
+            if !comps.contains(&"..") {
+                return None;
+            }
+            comps.iter().map(|c| if *c == ".." { "%2e%2e" } else { c }).collect::<Vec<_>>().join(joiner)
+        }
+        Deco::Nul => format!("{base}\0"),
+    })
+}
+
+/// All path strings, simplest first (fewer components, then plain before decorated, `/` before the
+/// other joiners), without duplicates. `levels[n-1]` = size of the menu prefix used for sequences
+/// of n components.
+fn path_strings(levels: &[usize]) -> Vec<String> {
+    let m = menu();
+    let mut seen: HashSet<u64> = HashSet::new();
+    let mut out = Vec::new();
+    for (li, &msize) in levels.iter().enumerate() {
+        let n = li + 1;
+        let total = msize.pow(n as u32);
+        let joiners: &[&str] = if n == 1 { &JOINERS[..1] } else { JOINERS };
+        for &deco in DECOS {
+            for joiner in joiners {
+                for mut idx in 0..total {
+                    // most significant digit = first component, so simple prefixes come first
+                    let mut comps: Vec<&str> = vec![""; n];
+                    for k in (0..n).rev() {
+                        comps[k] = m[idx % msize].as_str();
+                        idx /= msize;
+                    }
+                    if let Some(s) = decorate(&comps, joiner, deco) {
+                        use std::hash::{Hash, Hasher};
+                        let mut h = std::collections::hash_map::DefaultHasher::new();
+                        s.hash(&mut h);
+                        if seen.insert(h.finish()) {
+                            out.push(s);
+                        }
+                    }
+                }
+            }
+        }
+    }
+    out
+}
+
+/// Shape features of a path string that matter for confinement (cosmetic ones — spaces, unicode,
+/// length, `//`, `.`-components, trailing slash — are deliberately left out of signatures).
+fn tags(p: &str, layout: Layout) -> String {
+    let t = p.trim();
+    let mut v: Vec<&str> = Vec::new();
+    if t.starts_with("{OUTER}") || t.starts_with("{PROJECT}") || t.starts_with('/') {
+        v.push("absolute");
+    }
+    if t.starts_with("C:\\") {
+        v.push("drive-prefix");
+    }
+    let comps: Vec<&str> = t.split('/').collect();
+    if comps.iter().any(|c| *c == "..") {
+        v.push("dotdot");
+    } else if t.split(['/', '\\']).any(|c| c == "..") {
+        v.push("backslash-dotdot");
+    }
+    if t.to_ascii_lowercase().contains("%2e") {
+        v.push("urlenc-dot");
+    }
+    if comps.iter().any(|c| c.starts_with('.') && *c != "." && *c != "..") {
+        v.push("hidden-component");
+    } else if comps.iter().any(|c| !c.starts_with('.') && c.trim_start().starts_with('.')) {
+        v.push("padded-dot");
+    }
+    if layout == Layout::Full && !v.contains(&"absolute") {
+        // lexical walk: does the path go through / name the project's symlink?
+        let mut stack: Vec<&str> = Vec::new();
+        for c in &comps {
+            match *c {
+                "" | "." => {}
+                ".." => {
+                    stack.pop();
+                }
+                c => stack.push(c),
+            }
+        }
+        if stack.first() == Some(&"link") {
+            v.push(if stack.len() > 1 { "symlink-dir" } else { "symlink-entry" });
+        }
+    }
+    if t.contains('\0') {
+        v.push("nul");
+    }
+    // Windows / URL syntax can only be the cause where nothing stronger is present (a path with a
+    // real `..`, a dot component, the symlink ... is explained by that), so the weak tags are kept
+    // only when they stand alone; this keeps one defect from fanning out into many signatures.
+    const WEAK: &[&str] = &["drive-prefix", "backslash-dotdot", "urlenc-dot", "padded-dot"];
+    if v.iter().any(|t| !WEAK.contains(t)) {
+        v.retain(|t| !WEAK.contains(t));
+    }
+    if v.is_empty() {
+        "plain".to_string()
+    } else {
+        v.join("+")
+    }
+}
+
+/// Lexical target of an absolute path string (no symlink resolution).
+fn lexical_abs(t: &str) -> PathBuf {
+    let mut out = PathBuf::from("/");
+    for c in Path::new(t).components() {
+        match c {
+            Component::Normal(x) => out.push(x),
+            Component::ParentDir => {
+                out.pop();
+            }
+            _ => {}
+        }
+    }
+    out
+}
+
+/// Guard for the machine we run on: an absolute path string that (lexically) names something that
+/// exists outside our own tree is never handed to the subject (a broken subject could delete or
+/// overwrite it). Returns Err(()) = skip the case, Ok(Some(p)) = `p` is the shallowest ancestor of
+/// the target that does not exist yet (to be checked and cleaned up after the operation).
+fn host_guard(p: &str, tree: &Tree) -> Result<Option<PathBuf>, ()> {
+    let t = p.trim();
+    if !t.starts_with('/') {
+        return Ok(None);
+    }
+    if t.contains('\0') {
+        return Ok(None);
+    }
+    let target = lexical_abs(t);
+    if target.starts_with(tree.top.join("g5")) {
+        return Ok(None);
+    }
+    if target.symlink_metadata().is_ok() {
+        return Err(());
+    }
+    let mut probe = target.clone();
+    while let Some(parent) = probe.parent() {
+        if parent.symlink_metadata().is_ok() {
+            break;
+        }
+        probe = parent.to_path_buf();
+    }
+    Ok(Some(probe))
+}
+
+// -------------------------------------------------------------------------------------------------
+// executing one case on the real code
+// -------------------------------------------------------------------------------------------------
+
+fn to_v<T: serde::Serialize>(t: T) -> Value {
+    serde_json::to_value(t).unwrap_or(Value::Null)
+}
+
+fn run_op(st: &WebIdeState, tok: &str, c: &Case, p1: &str, p2: &str) -> Result<Value, IdeError> {
+    // `Position` of trust-wasm-analysis is not re-exported; it is `Deserialize`.
+    macro_rules! pos {
+        () => {
+            serde_json::from_value(json!({"line": 4, "character": 12})).expect("position")
+        };
+    }
+    Ok(match c.op {
+        Op::ListSources => to_v(st.list_sources(tok)?),
+        Op::ListTree => to_v(st.list_tree(tok)?),
+        Op::Search => to_v(st.workspace_search(tok, p1, if p2.is_empty() { None } else { Some(p2) }, None, 1000)?),
+        Op::WorkspaceSymbols => to_v(st.workspace_symbols(tok, p1, 1000)?),
+        Op::Browse => to_v(st.browse_directory(tok, if p1.is_empty() { None } else { Some(p1) })?),
+        Op::SetActiveProject => to_v(st.set_active_project(tok, p1)?),
+        Op::Open => to_v(st.open_source(tok, p1)?),
+        Op::CreateFile => to_v(st.create_entry(tok, p1, false, Some(EDITOR_PAYLOAD.to_string()), c.we)?),
+        Op::CreateDir => to_v(st.create_entry(tok, p1, true, None, c.we)?),
+        // a fresh state tracks every document at version 1
+        Op::Apply => to_v(st.apply_source(tok, p1, 1, EDITOR_PAYLOAD.to_string(), c.we)?),
+        Op::Delete => to_v(st.delete_entry(tok, p1, c.we)?),
+        Op::Format => to_v(st.format_source(tok, p1, None)?),
+        Op::Rename => to_v(st.rename_entry(tok, p1, p2, c.we)?),
+        Op::FileSymbols => to_v(st.file_symbols(tok, p1, "", 1000)?),
+        Op::Diagnostics => to_v(st.diagnostics(tok, p1, None)?),
+        Op::Hover => to_v(st.hover(tok, p1, None, pos!())?),
+        Op::Completion => to_v(st.completion(tok, p1, None, pos!(), Some(1000))?),
+        Op::Definition => to_v(st.definition(tok, p1, None, pos!())?),
+        Op::References => to_v(st.references(tok, p1, None, pos!(), true)?),
+        Op::RenameSymbol => to_v(st.rename_symbol(tok, p1, None, pos!(), "ZqInRenamed", c.we)?),
+    })
+}
+
+fn collect_paths(v: &Value, out: &mut Vec<String>) {
+    match v {
+        Value::Array(a) => a.iter().for_each(|x| collect_paths(x, out)),
+        Value::Object(o) => {
+            for (k, x) in o {
+                if k == "path" {
+                    if let Some(s) = x.as_str() {
+                        out.push(s.to_string());
+                    }
+                } else {
+                    collect_paths(x, out);
+                }
+            }
+        }
+        _ => {}
+    }
+}
+
+struct Outcome {
+    /// "ok" or the error kind
+    kind: String,
+    /// lower-cased serialized result / error message
+    text: String,
+    /// workspace-relative paths the operation returned
+    paths: Vec<String>,
+    panic: Option<String>,
+}
+
+fn execute(tree: &Tree, c: &Case) -> Outcome {
+    let p1 = subst(&c.p1, tree);
+    let p2 = subst(&c.p2, tree);
+    let project = tree.project.clone();
+    let r = catch(|| {
+        let st = WebIdeState::new(Some(project));
+        let tok = match c.sess {
+            Sess::Editor => st.create_session(IdeRole::Editor).map(|s| s.token),
+            Sess::Viewer => st.create_session(IdeRole::Viewer).map(|s| s.token),
+            Sess::Unknown => Ok(UNKNOWN_TOKEN.to_string()),
+        };
+        match tok {
+            Ok(tok) => run_op(&st, &tok, c, &p1, &p2),
+            Err(e) => Err(e),
+        }
+    });
+    match r {
+        Err(m) => Outcome { kind: "panic".into(), text: String::new(), paths: Vec::new(), panic: Some(m) },
+        Ok(Err(e)) => Outcome {
+            kind: format!("{:?}", e.kind()),
+            text: e.to_string().to_lowercase(),
+            paths: Vec::new(),
+            panic: None,
+        },
+        Ok(Ok(v)) => {
+            let mut paths = Vec::new();
+            if c.op == Op::ListSources {
+                if let Some(a) = v.as_array() {
+                    paths.extend(a.iter().filter_map(|s| s.as_str().map(str::to_string)));
+                }
+            } else if !c.op.has_we() && !c.op.is_picker() {
+                collect_paths(&v, &mut paths);
+            }
+            Outcome { kind: "ok".into(), text: v.to_string().to_lowercase(), paths, panic: None }
+        }
+    }
+}
+
+// -------------------------------------------------------------------------------------------------
+// oracle
+// -------------------------------------------------------------------------------------------------
+
+fn norm_msg(m: &str) -> String {
+    let s: String = m.chars().map(|c| if c.is_ascii_digit() { '#' } else { c }).take(60).collect();
+    s
+}
+
+#[derive(Default)]
+struct Stats {
+    evaluations: u64,
+    nontrivial: u64,
+    skipped_host_guard: u64,
+    full_snapshots: u64,
+    confirm_runs: u64,
+    /// (operation, outcome kind) -> count
+    outcomes: BTreeMap<(Op, String), u64>,
+    /// operation -> cases in which an editor legitimately changed the project
+    editor_changes: BTreeMap<Op, u64>,
+    /// operation -> cases answered Ok for a viewer (read side is alive)
+    viewer_ok: BTreeMap<Op, u64>,
+}
+
+impl Stats {
+    fn merge(&mut self, o: Stats) {
+        self.evaluations += o.evaluations;
+        self.nontrivial += o.nontrivial;
+        self.skipped_host_guard += o.skipped_host_guard;
+        self.full_snapshots += o.full_snapshots;
+        self.confirm_runs += o.confirm_runs;
+        for (k, v) in o.outcomes {
+            *self.outcomes.entry(k).or_insert(0) += v;
+        }
+        for (k, v) in o.editor_changes {
+            *self.editor_changes.entry(k).or_insert(0) += v;
+        }
+        for (k, v) in o.viewer_ok {
+            *self.viewer_ok.entry(k).or_insert(0) += v;
+        }
+    }
+}
+
+fn describe_diff(d: &[(char, String, Zone)], zone: Zone) -> String {
+    let v: Vec<String> = d
+        .iter()
+        .filter(|x| x.2 == zone)
+        .take(4)
+        .map(|(s, p, _)| format!("{s}{}", p.strip_prefix("g5/g4/g3/g2/").unwrap_or(p)))
+        .collect();
+    v.join(" ")
+}
+
+/// What happened to the project tree, for the gating clause.
+fn effect_kind(d: &[(char, String, Zone)], after: &Snapshot, targets: &[String]) -> &'static str {
+    let proj: Vec<&(char, String, Zone)> = d.iter().filter(|x| x.2 == Zone::Project).collect();
+    let added: Vec<&&(char, String, Zone)> = proj.iter().filter(|x| x.0 == '+').collect();
+    let removed = proj.iter().filter(|x| x.0 == '-').count();
+    let changed = proj.iter().filter(|x| x.0 == '~').count();
+    if removed > 0 && !added.is_empty() {
+        return "move";
+    }
+    if removed > 0 {
+        return "remove";
+    }
+    if changed > 0 {
+        return "modify";
+    }
+    if !added.is_empty() {
+        let only_dirs = added.iter().all(|x| after.get(&x.1) == Some(&Node::Dir));
+        if only_dirs {
+            // every new directory is a proper ancestor of a (normalised) target path
+            let all_parents = added.iter().all(|x| {
+                let rel = x.1.strip_prefix(PROJECT_REL).unwrap_or(&x.1).trim_start_matches('/');
+                targets.iter().any(|t| t.starts_with(&format!("{rel}/")))
+            });
+            return if all_parents { "mkdir-parent" } else { "mkdir" };
+        }
+        return "create";
+    }
+    "stat-only"
+}
+
+/// Plain lexical normalisation of a relative path string (only used to name the effect
+/// `mkdir-parent`, never to decide a verdict).
+fn lexical_rel(p: &str) -> String {
+    let mut v: Vec<&str> = Vec::new();
+    for c in p.trim().split('/') {
+        match c {
+            "" | "." => {}
+            ".." => {
+                v.pop();
+            }
+            c => v.push(c),
+        }
+    }
+    v.join("/")
+}
+
+/// Removes entries the subject created on the host outside our tree (they did not exist before the
+/// operation, see `host_guard`).
+fn remove_host_entries(list: &[PathBuf]) {
+    for h in list {
+        let Ok(md) = h.symlink_metadata() else { continue };
+        let _ = if md.is_dir() { std::fs::remove_dir_all(h) } else { std::fs::remove_file(h) };
+    }
+}
+
+struct Eval {
+    violations: Vec<Violation>,
+    outcome_kind: String,
+    skipped: bool,
+}
+
+/// Executes one case on a pristine tree and applies every oracle clause. `replay` = take the full
+/// snapshot unconditionally.
+fn eval_case(tree: &mut Tree, c: &Case, replay: bool, stats: &mut Stats) -> Result<Eval, String> {
+    tree.ensure_pristine()?;
+    let mut probes = Vec::new();
+    for p in [&c.p1, &c.p2] {
+        if c.op.p1_is_path() && !c.op.is_picker() {
+            match host_guard(&subst(p, tree), tree) {
+                Err(()) => {
+                    stats.skipped_host_guard += 1;
+                    return Ok(Eval { violations: Vec::new(), outcome_kind: "skipped".into(), skipped: true });
+                }
+                Ok(Some(pr)) => probes.push(pr),
+                Ok(None) => {}
+            }
+        }
+    }
+    stats.evaluations += 1;
+    let out = execute(tree, c);
+    *stats.outcomes.entry((c.op, out.kind.clone())).or_insert(0) += 1;
+
+    let mut fast = tree.fast_check();
+    let mut host_created = Vec::new();
+    for pr in &probes {
+        if pr.symlink_metadata().is_ok() {
+            host_created.push(pr.clone());
+        }
+    }
+    let suspicious = !fast.clean() || !host_created.is_empty();
+    let may_mutate = c.sess == Sess::Editor && (!c.op.has_we() || c.we);
+
+    let mut vs: Vec<Violation> = Vec::new();
+    let feature = || {
+        if c.op == Op::Rename {
+            let (o, n) = (tags(&c.p1, c.layout), tags(&c.p2, c.layout));
+            match (o.as_str(), n.as_str()) {
+                ("plain", "plain") => "plain".to_string(),
+                (_, "plain") => format!("old={o}"),
+                ("plain", _) => format!("new={n}"),
+                _ => format!("old={o};new={n}"),
+            }
+        } else if c.op.p1_is_path() {
+            tags(&c.p1, c.layout)
+        } else {
+            "plain".to_string()
+        }
+    };
+    let head = || {
+        let args = match c.op {
+            Op::Rename => format!("({}, {})", show(&c.p1), show(&c.p2)),
+            Op::Search => format!("(query {}, include {})", show(&c.p1), show(&c.p2)),
+            Op::ListSources | Op::ListTree => "()".to_string(),
+            _ => format!("({})", show(&c.p1)),
+        };
+        let we = if c.op.has_we() { format!(", write_enabled={}", c.we) } else { String::new() };
+        format!("{}{} by {} session{} (layout {}) answered {}", c.op.as_str(), args, c.sess.as_str(), we, c.layout.as_str(), out.kind)
+    };
+    let mut push = |clause: &str, feat: &str, detail: String| {
+        vs.push(Violation {
+            signature: format!("C19/{clause}/{}:{feat}", c.op.as_str()),
+            what: format!("{}: {detail}", head()),
+            case: c.to_json(),
+        });
+    };
+
+    if let Some(m) = &out.panic {
+        push("panic", &norm_msg(m), format!("the subject panicked: {m}"));
+    }
+
+    // ---- write clauses (full snapshot only when needed)
+    let mut diff: Vec<(char, String, Zone)> = Vec::new();
+    let mut after = Snapshot::new();
+    // every time the detector fires (also for a legitimate editor change) the contents are compared
+    let take_full = replay || suspicious;
+    if take_full {
+        stats.full_snapshots += 1;
+        after = tree.snapshot();
+        diff = diff_snap(&tree.pristine, &after);
+    }
+    let full_out = diff.iter().any(|d| d.2 == Zone::Outside);
+    let full_hid = diff.iter().any(|d| d.2 == Zone::Hidden);
+    let full_proj = diff.iter().any(|d| d.2 == Zone::Project);
+    if fast.out_w != 0 || full_out || !host_created.is_empty() {
+        let mut detail = format!("entries OUTSIDE the project directory changed: {}", describe_diff(&diff, Zone::Outside));
+        if fast.out_w != 0 {
+            detail.push_str(&format!(" [lstat differs: {}]", tree.names(fast.out_w)));
+        }
+        for h in &host_created {
+            detail.push_str(&format!(" [created on the host: {}]", h.display()));
+        }
+        push("escape-write", &feature(), detail);
+    }
+    if fast.hid_w != 0 || full_hid {
+        push(
+            "hidden-write",
+            &feature(),
+            format!(
+                "hidden entries of the project changed: {} [lstat differs: {}]",
+                describe_diff(&diff, Zone::Hidden),
+                tree.names(fast.hid_w)
+            ),
+        );
+    }
+
+    // ---- read clauses
+    // Access times can also be moved by a foreign process that happens to walk over the scratch
+    // directory (grep -r, find, an indexer). The subject is deterministic, so access-time evidence
+    // counts only if it re-appears in two more executions of the same case on freshly built trees.
+    if tree.atime_ok && !c.op.is_picker() && (fast.out_r | fast.hid_r) != 0 {
+        for _ in 0..2 {
+            remove_host_entries(&host_created);
+            tree.build()?;
+            let _ = execute(tree, c);
+            let again = tree.fast_check();
+            fast.out_r &= again.out_r;
+            fast.hid_r &= again.hid_r;
+            stats.confirm_runs += 1;
+        }
+    }
+    let fast = fast;
+    let plain_or = |source: &str| {
+        let f = feature();
+        if f == "plain" {
+            source.to_string()
+        } else {
+            f
+        }
+    };
+    if !c.op.is_picker() {
+        let mut esc: Option<(String, String)> = None; // (source feature, detail)
+        let mut hid: Option<String> = None;
+        if out.text.contains("zqout") {
+            let src = if out.text.contains("zqoutp2") { "symlink-dir" } else { "parent-dir" };
+            let at = out.text.find("zqout").unwrap_or(0);
+            let snippet: String = out.text[at..].chars().take(24).collect();
+            esc = Some((src.to_string(), format!("the answer contains sentinel data of a file outside the project ({snippet:?}…)")));
+        }
+        if out.text.contains("zqhidden") {
+            hid = Some("the answer contains sentinel data of a hidden entry".to_string());
+        }
+        for p in &out.paths {
+            if p.split('/').any(|comp| comp.starts_with('.')) {
+                hid.get_or_insert_with(|| format!("the answer lists the hidden entry {}", show(p)));
+                continue;
+            }
+            if let Ok(real) = tree.project.join(p).canonicalize() {
+                if !real.starts_with(&tree.canon_project) {
+                    let src = if real.starts_with(tree.outer.join("project2")) { "symlink-dir" } else { "parent-dir" };
+                    esc.get_or_insert_with(|| {
+                        (
+                            src.to_string(),
+                            format!(
+                                "the answer lists {} which is {} outside the project",
+                                show(p),
+                                real.strip_prefix(&tree.top).unwrap_or(&real).display()
+                            ),
+                        )
+                    });
+                }
+            }
+        }
+        if tree.atime_ok {
+            if fast.out_r != 0 {
+                let src = if tree.mask_in_p2(fast.out_r) { "symlink-dir" } else { "parent-dir" };
+                esc.get_or_insert_with(|| {
+                    (src.to_string(), format!("entries outside the project were read (access time changed): {}", tree.names(fast.out_r)))
+                });
+            }
+            if fast.hid_r != 0 {
+                hid.get_or_insert_with(|| format!("hidden entries were read (access time changed): {}", tree.names(fast.hid_r)));
+            }
+        }
+        // A directory that was *listed* (its own access time moved) was reached by a walk over the
+        // workspace, not through the path argument: the cause is then the walk, whatever the path.
+        let listed = |rel: &str| {
+            tree.atime_dir_ok
+                && tree
+                    .watched
+                    .iter()
+                    .enumerate()
+                    .any(|(i, w)| w.rel == rel && (fast.out_r | fast.hid_r) & (1 << i) != 0)
+        };
+        if let Some((src, detail)) = esc {
+            let feat = if listed(P2_REL) { "symlink-dir".to_string() } else { plain_or(&src) };
+            push("escape-read", &feat, detail);
+        }
+        if let Some(detail) = hid {
+            let feat = if listed(&format!("{PROJECT_REL}/.hidden")) { "hidden-entry".to_string() } else { plain_or("hidden-entry") };
+            push("hidden-read", &feat, detail);
+        }
+    }
+
+    // ---- gating clause
+    if !may_mutate && (fast.proj_w != 0 || full_proj) {
+        let clause = if c.op.has_we() && !c.we {
+            "write-disabled-mutation"
+        } else if c.sess == Sess::Viewer {
+            "viewer-mutation"
+        } else {
+            "unknown-session-mutation"
+        };
+        let targets = vec![lexical_rel(&c.p1), lexical_rel(&c.p2)];
+        let eff = effect_kind(&diff, &after, &targets);
+        push(
+            clause,
+            eff,
+            format!(
+                "the project tree changed although this caller must not mutate anything: {} [lstat differs: {}]",
+                describe_diff(&diff, Zone::Project),
+                tree.names(fast.proj_w)
+            ),
+        );
+    }
+
+    // ---- bookkeeping
+    if may_mutate && fast.proj_w != 0 {
+        *stats.editor_changes.entry(c.op).or_insert(0) += 1;
+    }
+    if c.sess == Sess::Viewer && out.kind == "ok" {
+        *stats.viewer_ok.entry(c.op).or_insert(0) += 1;
+    }
+    if out.kind == "ok" || suspicious {
+        stats.nontrivial += 1;
+    }
+    if suspicious || take_full {
+        tree.dirty = true;
+    }
+    let mut leftovers = host_created;
+    for pr in probes {
+        if !leftovers.contains(&pr) {
+            leftovers.push(pr);
+        }
+    }
+    remove_host_entries(&leftovers);
+    Ok(Eval { violations: vs, outcome_kind: out.kind, skipped: false })
+}
+
+// -------------------------------------------------------------------------------------------------
+// replay
+// -------------------------------------------------------------------------------------------------
+
+/// Where the sentinel trees live. Creating and deleting files is ~20x faster on tmpfs than on the
+/// ext4 work directory (measured: 0.1 ms vs 2-20 ms per rebuild under load), and tens of thousands
+/// of rebuilds are needed, so `/dev/shm` is preferred when it is usable; `TV_C19_TREE_DIR`
+/// overrides; the fall-back is the engine's work directory (or the temp dir for a replay).
+fn tree_base(ctx: Option<&Ctx>) -> PathBuf {
+    let leaf = format!("tv-c19-confine-{}", std::process::id());
+    if let Ok(d) = std::env::var("TV_C19_TREE_DIR") {
+        if !d.is_empty() {
+            return PathBuf::from(d).join(leaf);
+        }
+    }
+    let shm = Path::new("/dev/shm");
+    if shm.is_dir() {
+        remove_stale_bases(shm);
+        let probe = shm.join(format!("{leaf}.probe"));
+        if std::fs::create_dir_all(&probe).is_ok() {
+            let _ = std::fs::remove_dir(&probe);
+            return shm.join(leaf);
+        }
+    }
+    match ctx {
+        Some(c) => c.work_dir().join("confine"),
+        None => std::env::temp_dir().join(leaf),
+    }
+}
+
+/// Removes tree directories left behind in `/dev/shm` by runs whose process no longer exists
+/// (a killed run cannot clean up after itself).
+fn remove_stale_bases(dir: &Path) {
+    let Ok(rd) = std::fs::read_dir(dir) else { return };
+    for e in rd.flatten() {
+        let name = e.file_name().to_string_lossy().to_string();
+        let Some(pid) = name.strip_prefix("tv-c19-confine-").and_then(|r| r.parse::<i32>().ok()) else { continue };
+        // SAFETY: signal 0 only tests for the existence of the process.
+        let alive = unsafe { libc::kill(pid, 0) } == 0 || std::io::Error::last_os_error().raw_os_error() != Some(libc::ESRCH);
+        if !alive {
+            let _ = std::fs::remove_dir_all(e.path());
+        }
+    }
+}
+
+pub fn check_case(case: &Value) -> Vec<Violation> {
+    if case["part"].as_str() != Some("confine") {
+        return Vec::new();
+    }
+    let Some(c) = Case::from_json(case) else { return Vec::new() };
+    let base = tree_base(None);
+    let mut stats = Stats::default();
+    let r = Tree::new(&base, c.layout).and_then(|mut t| eval_case(&mut t, &c, true, &mut stats));
+    let _ = std::fs::remove_dir(&base);
+    match r {
+        Ok(e) => e.violations,
+        Err(m) => vec![Violation {
+            signature: "C19/machinery/confine-replay".into(),
+            what: format!("replay could not be executed: {m}"),
+            case: case.clone(),
+        }],
+    }
+}
+
+// -------------------------------------------------------------------------------------------------
+// exploration
+// -------------------------------------------------------------------------------------------------
+
+struct Pool {
+    base: PathBuf,
+    free: Mutex<Vec<Tree>>,
+}
+
+impl Pool {
+    fn take(&self, layout: Layout) -> Result<Tree, String> {
+        {
+            let mut f = self.free.lock().unwrap();
+            if let Some(i) = f.iter().position(|t| t.layout == layout) {
+                return Ok(f.swap_remove(i));
+            }
+        }
+        Tree::new(&self.base, layout)
+    }
+    fn give(&self, t: Tree) {
+        self.free.lock().unwrap().push(t);
+    }
+}
+
+/// One unit of parallel work; units are ordered simplest first.
+enum Unit {
+    /// operations without a path argument, picker operations, analysis operations on `paths[range]`
+    Small(Vec<Case>),
+    /// single-path operations and rename_entry on `paths[lo..hi]`
+    Paths(usize, usize),
+    /// rename_entry with `singles[lo..hi]` as old path x every string of `singles` as new path
+    Pairs(usize, usize),
+}
+
+struct UnitOut {
+    stats: Stats,
+    /// signature -> (count, first violation)
+    viol: Vec<(String, u64, Violation)>,
+    samples: Vec<Value>,
+    rebuilds: u64,
+}
+
+const SINGLE_PATH_OPS: &[Op] = &[Op::Open, Op::Format, Op::CreateFile, Op::CreateDir, Op::Apply, Op::Delete];
+const ANALYSIS_OPS: &[Op] =
+    &[Op::FileSymbols, Op::Diagnostics, Op::Hover, Op::Completion, Op::Definition, Op::References, Op::RenameSymbol];
+
+/// second argument when the FIRST argument of rename_entry runs over the whole menu
+const RENAME_NEW_REDUCED: &[&str] = &["renamed.st", "newdir/renamed.st"];
+/// first argument when the SECOND argument runs over the whole menu (file, directory, symlinked directory)
+const RENAME_OLD_REDUCED: &[&str] = &["main.st", "sub", "link"];
+
+fn cases_for_path(p: &str, out: &mut Vec<Case>) {
+    let l = Layout::Full;
+    for &op in SINGLE_PATH_OPS {
+        for &sess in SESSIONS {
+            if op.has_we() {
+                for we in [true, false] {
+                    out.push(Case { op, p1: p.to_string(), p2: String::new(), sess, we, layout: l });
+                }
+            } else {
+                out.push(Case { op, p1: p.to_string(), p2: String::new(), sess, we: true, layout: l });
+            }
+        }
+    }
+    for &sess in SESSIONS {
+        for we in [true, false] {
+            for new in RENAME_NEW_REDUCED {
+                out.push(Case { op: Op::Rename, p1: p.to_string(), p2: new.to_string(), sess, we, layout: l });
+            }
+            for old in RENAME_OLD_REDUCED {
+                out.push(Case { op: Op::Rename, p1: old.to_string(), p2: p.to_string(), sess, we, layout: l });
+            }
+        }
+    }
+}
+
+fn small_units(analysis_paths: &[String]) -> Vec<Unit> {
+    let mut units = Vec::new();
+    // (D) operations without a path argument + the project picker
+    let mut v = Vec::new();
+    for layout in [Layout::Full, Layout::NoLink] {
+        for &sess in SESSIONS {
+            let mk = |op: Op, p1: &str, p2: &str| Case { op, p1: p1.to_string(), p2: p2.to_string(), sess, we: true, layout };
+            v.push(mk(Op::ListSources, "", ""));
+            v.push(mk(Op::ListTree, "", ""));
+            for q in ["zq", "end_program", "ZqOutP2Other", " PROGRAM "] {
+                for inc in ["", "**/*.st", "*", "link/**", "../**", ".hidden/**", ".*", "/**"] {
+                    v.push(mk(Op::Search, q, inc));
+                }
+            }
+            for q in ["", "zq", "ZqOut"] {
+                v.push(mk(Op::WorkspaceSymbols, q, ""));
+            }
+            for p in ["{PROJECT}", "{OUTER}", "{PROJECT}/link", "{PROJECT}/.hidden", "{PROJECT}/..", "{PROJECT}/main.st", "/nonexistent-c19"] {
+                v.push(mk(Op::Browse, p, ""));
+                v.push(mk(Op::SetActiveProject, p, ""));
+            }
+        }
+    }
+    units.push(Unit::Small(v));
+    // (C) analysis operations (heavier): reduced path list, both layouts
+    for chunk in analysis_paths.chunks(24) {
+        let mut v = Vec::new();
+        for p in chunk {
+            for layout in [Layout::Full, Layout::NoLink] {
+                for &op in ANALYSIS_OPS {
+                    for &sess in SESSIONS {
+                        let wes: &[bool] = if op.has_we() { &[true, false] } else { &[true] };
+                        for &we in wes {
+                            v.push(Case { op, p1: p.clone(), p2: String::new(), sess, we, layout });
+                        }
+                    }
+                }
+            }
+        }
+        units.push(Unit::Small(v));
+    }
+    units
+}
+
+fn run_unit(pool: &Pool, paths: &[String], singles: &[String], unit: &Unit, want_samples: bool) -> Result<UnitOut, String> {
+    let mut cases: Vec<Case> = Vec::new();
+    match unit {
+        Unit::Small(v) => cases.extend(v.iter().cloned()),
+        Unit::Pairs(lo, hi) => {
+            for old in &singles[*lo..*hi] {
+                for new in singles {
+                    for &sess in SESSIONS {
+                        for we in [true, false] {
+                            cases.push(Case { op: Op::Rename, p1: old.clone(), p2: new.clone(), sess, we, layout: Layout::Full });
+                        }
+                    }
+                }
+            }
+        }
+        Unit::Paths(lo, hi) => {
+            for p in &paths[*lo..*hi] {
+                cases_for_path(p, &mut cases);
+            }
+        }
+    }
+    let mut out = UnitOut { stats: Stats::default(), viol: Vec::new(), samples: Vec::new(), rebuilds: 0 };
+    let mut index: BTreeMap<String, usize> = BTreeMap::new();
+    let mut trees: Vec<Tree> = Vec::new();
+    for c in &cases {
+        let ti = match trees.iter().position(|t| t.layout == c.layout) {
+            Some(i) => i,
+            None => {
+                trees.push(pool.take(c.layout)?);
+                trees.len() - 1
+            }
+        };
+        let e = eval_case(&mut trees[ti], c, false, &mut out.stats)?;
+        if want_samples && !e.skipped && out.samples.len() < 2 && e.outcome_kind == "ok" && c.sess == Sess::Editor && c.op.has_we() {
+            let mut j = c.to_json();
+            j["outcome"] = json!(e.outcome_kind);
+            out.samples.push(j);
+        }
+        for v in e.violations {
+            match index.get(&v.signature) {
+                Some(&i) => out.viol[i].1 += 1,
+                None => {
+                    index.insert(v.signature.clone(), out.viol.len());
+                    out.viol.push((v.signature.clone(), 1, v));
+                }
+            }
+        }
+    }
+    // cross-check of the change detector: after a rebuild-if-dirty the tree must equal the pristine snapshot
+    for mut t in trees {
+        t.ensure_pristine()?;
+        let f = t.fast_check();
+        if f.out_w | f.hid_w | f.proj_w != 0 {
+            return Err(format!("change detector fires on a freshly built / untouched tree: {}", t.names(f.out_w | f.hid_w | f.proj_w)));
+        }
+        let snap = t.snapshot();
+        if snap != t.pristine {
+            let d = diff_snap(&t.pristine, &snap);
+            return Err(format!(
+                "the lstat change detector missed a change that the full snapshot sees: {:?}",
+                d.iter().take(3).map(|x| format!("{}{}", x.0, x.1)).collect::<Vec<_>>()
+            ));
+        }
+        t.dirty = true; // the snapshot read the sentinel files
+        out.rebuilds += t.rebuilds;
+        t.rebuilds = 0;
+        pool.give(t);
+    }
+    Ok(out)
+}
+
+pub fn run_part(ctx: &Ctx, rep: &mut Report) -> Result<(), Machinery> {
+    quiet_panics();
+    let t0 = Instant::now();
+    let deadline = t0 + Duration::from_secs(ctx.tier.pick(20, 420));
+    let base = tree_base(Some(ctx));
+    std::fs::create_dir_all(&base).map_err(|e| Machinery(format!("confine: cannot create {base:?}: {e}")))?;
+    let pool = Pool { base: base.clone(), free: Mutex::new(Vec::new()) };
+
+    // path strings: all sequences of <= 3 components (thorough: 4); the deepest level uses the core menu
+    let levels: Vec<usize> = ctx.tier.pick(vec![FULL, FULL, CORE], vec![FULL, FULL, FULL, GIVEN]);
+    let paths = path_strings(&levels);
+    let analysis_levels: Vec<usize> = ctx.tier.pick(vec![FULL, CORE], vec![FULL, FULL]);
+    let analysis_paths: Vec<String> = path_strings(&analysis_levels);
+
+    // rename_entry with the (one-component) menu on BOTH arguments
+    let singles: Vec<String> = path_strings(&levels[..1]);
+    let mut units = small_units(&analysis_paths);
+    for lo in (0..singles.len()).step_by(4) {
+        units.push(Unit::Pairs(lo, (lo + 4).min(singles.len())));
+    }
+    let small_count = units.len();
+    let chunk = 48usize;
+    let mut lo = 0;
+    while lo < paths.len() {
+        let hi = (lo + chunk).min(paths.len());
+        units.push(Unit::Paths(lo, hi));
+        lo = hi;
+    }
+
+    let res = par_map(&units, ctx.threads, 4 << 20, Some(deadline), |i, u| run_unit(&pool, &paths, &singles, u, i == small_count + 3));
+
+    let mut stats = Stats::default();
+    let mut exhaustive = true;
+    let mut done_units = 0usize;
+    let mut rebuilds = 0u64;
+    let mut paths_done = 0usize;
+    for (u, r) in units.iter().zip(res) {
+        match r {
+            Some(Ok(o)) => {
+                done_units += 1;
+                stats.merge(o.stats);
+                rebuilds += o.rebuilds;
+                if let Unit::Paths(lo, hi) = u {
+                    paths_done += hi - lo;
+                }
+                for s in o.samples {
+                    rep.sample(s);
+                }
+                for (sig, n, v) in o.viol {
+                    rep.violation(v);
+                    if n > 1 {
+                        *rep.violation_counts.entry(sig).or_insert(0) += n - 1;
+                    }
+                }
+            }
+            Some(Err(m)) => return machinery(format!("confine: {m}")),
+            None => exhaustive = false,
+        }
+    }
+    let atime_ok = pool.free.lock().unwrap().iter().all(|t| t.atime_ok && t.atime_dir_ok);
+    drop(pool);
+    let _ = std::fs::remove_dir_all(&base);
+
+    if !exhaustive {
+        rep.cap(format!(
+            "confine: wall cap reached after {done_units} of {} work units ({paths_done} of {} path strings)",
+            units.len(),
+            paths.len()
+        ));
+    }
+
+    // ---- vacuity checks: the mutating operations must really mutate for an editor, the read side must answer
+    for op in [Op::CreateFile, Op::CreateDir, Op::Apply, Op::Delete, Op::Rename, Op::RenameSymbol] {
+        if stats.editor_changes.get(&op).copied().unwrap_or(0) == 0 {
+            return machinery(format!(
+                "confine: vacuous — no {} by an editor with write access changed the project tree",
+                op.as_str()
+            ));
+        }
+    }
+    for op in [Op::ListSources, Op::ListTree, Op::Search, Op::Open, Op::Format, Op::FileSymbols, Op::WorkspaceSymbols] {
+        if stats.viewer_ok.get(&op).copied().unwrap_or(0) == 0 {
+            return machinery(format!("confine: vacuous — no {} of a viewer session was answered", op.as_str()));
+        }
+    }
+
+    let mut outcomes = serde_json::Map::new();
+    let mut distinct_outcomes = 0u64;
+    for ((op, kind), n) in &stats.outcomes {
+        let e = outcomes.entry(op.as_str().to_string()).or_insert_with(|| json!({}));
+        e[kind.as_str()] = json!(n);
+        distinct_outcomes += 1;
+    }
+    let per_op = |m: &BTreeMap<Op, u64>| {
+        let mut o = serde_json::Map::new();
+        for (k, v) in m {
+            o.insert(k.as_str().to_string(), json!(v));
+        }
+        Value::Object(o)
+    };
+    rep.add("confine_evaluations", stats.evaluations);
+    rep.add("confine_distinct_nontrivial", stats.nontrivial);
+    rep.set("confine_path_strings", paths.len() as u64);
+    rep.set("confine_rename_pair_strings", singles.len() as u64);
+    rep.set("confine_path_strings_completed", paths_done as u64);
+    rep.set("confine_analysis_path_strings", analysis_paths.len() as u64);
+    rep.set("confine_max_components", levels.len() as u64);
+    rep.set("confine_menu_sizes_per_length", json!(levels));
+    rep.set("confine_outcomes", Value::Object(outcomes));
+    rep.set("confine_distinct_outcomes", distinct_outcomes);
+    rep.set("confine_editor_changes_by_op", per_op(&stats.editor_changes));
+    rep.set("confine_viewer_answers_by_op", per_op(&stats.viewer_ok));
+    rep.set("confine_tree_rebuilds", rebuilds);
+    rep.set("confine_full_snapshots", stats.full_snapshots);
+    rep.set("confine_access_time_confirmation_runs", stats.confirm_runs);
+    rep.set("confine_skipped_by_host_guard", stats.skipped_host_guard);
+    rep.set("confine_tree_dir", base.to_string_lossy().to_string());
+    rep.set("confine_read_detector", if atime_ok { "results+access-times" } else { "results-only" });
+    rep.set("confine_exhaustive", exhaustive);
+    rep.set("confine_wall_s", t0.elapsed().as_secs_f64());
+    rep.set(
+        "confine_rule",
+        "path strings = every sequence of <= N components over a 17-entry menu (a 10-entry (quick) / 14-entry (thorough) prefix of it at the deepest length) joined with '/', '//', '\\', each plain and with one decoration (trailing '/', './', surrounding spaces, leading '/', absolute prefix of the sentinel directory, 'C:\\', %2e%2e, NUL), de-duplicated; each string x {open, format, create file, create dir, apply, delete} x {editor, viewer, unknown token} x write_enabled {true,false} (where the call has the flag), rename_entry with the string as old path x 2 new paths and as new path x 3 old paths, plus every pair of one-component strings; analysis calls (file_symbols, diagnostics, hover, completion, definition, references, rename_symbol) on the shorter path list in two tree layouts; list/tree/search/symbols/picker calls per session and layout. Every case runs on a pristine sentinel tree and a fresh WebIdeState. distinct_nontrivial = cases (all distinct tuples) that were answered Ok or had any file-system effect.",
+    );
+    rep.assume("confine: expired sessions cannot be produced through the public API (with_clock is cfg(test), TTL and clock are fixed); a never-issued token stands in for an expired-and-pruned one");
+    rep.assume("confine: reads are observed through returned data and, where the file system maintains them, access times; stat-like probes of outside entries are invisible");
+    rep.assume("confine: browse_directory/set_active_project (documented project picker) are only required not to write");
+    Ok(())
 }
